@@ -578,6 +578,8 @@ func (b *BlockWise[C]) getSentRequest(token message.Token) *pool.Message {
 		msg.SetToken(v.Token())
 		msg.ResetOptionsTo(v.Options())
 		msg.SetType(v.Type())
+		// only to tell whether the request carries a payload: the reader is shared and must not be read here
+		msg.SetBody(v.Body())
 		return cache.NewElement(msg, value.ValidUntil.Load(), nil)
 	})
 	if ok {
@@ -866,6 +868,13 @@ func (b *BlockWise[C]) processReceivedMessage(w *responsewriter.ResponseWriter[C
 	sendMessage.SetToken(token)
 	if blockType == message.Block2 {
 		num = payloadSize / szx.Size()
+		if num == 0 && sentRequest.Body() != nil {
+			// Starting over means asking for block 0 again, i.e. sending the request once more - but only its
+			// options are repeated here. For a request with a payload the peer would run the method on an empty
+			// body: give the transfer up instead (the representation changed, or a stale block arrived).
+			b.cc.ReleaseMessage(sendMessage)
+			return errors.New("cannot restart the transfer of the response: the request carries a payload")
+		}
 		sendMessage.ResetOptionsTo(sentRequest.Options())
 		sendMessage.SetCode(sentRequest.Code())
 		sendMessage.Remove(message.Observe)
